@@ -688,7 +688,19 @@ pub fn run_c06(ctx: &Ctx) -> Report {
                 }
             }
         }
-        ops.push(QOp::Finish);
+        // a last row whose cells are all written need not be ended by hand: finishing the writer, or
+        // just letting it go, completes it (the API documents both) - the row arrives all the same
+        if nr > 0 && matches!(ops.last(), Some(QOp::EndRow)) && rng.chance(1, 3) {
+            ops.pop();
+            rep.counters.inc("resultsets_whose_last_row_was_left_to_finish_or_drop");
+            match rng.below(3) {
+                0 => ops.push(QOp::Finish),
+                1 => ops.push(QOp::DropRow),
+                _ => {}
+            }
+        } else {
+            ops.push(QOp::Finish);
+        }
         let cmds = vec![Cmd::query(b"q"), Cmd::ping()];
         let scripts = vec![Script::Q(QProg { colsets: vec![cols, vec![], vec![simple_col("x", ColumnType::MYSQL_TYPE_LONG)]], ops, on_err: OnErr::Drop })];
         let obs = run_case(&varied_case(rng, cmds, scripts));
@@ -1199,7 +1211,15 @@ pub fn run_c07(ctx: &Ctx) -> Report {
                 }
             }
         }
-        ops.push(QOp::Finish);
+        // (a last row left un-ended is completed by finish() - or by letting the writer go)
+        if nr > 0 && matches!(ops.last(), Some(QOp::Col(_))) && rng.bool() {
+            rep.counters.inc("resultsets_whose_last_row_was_left_to_the_destructor");
+            if rng.bool() {
+                ops.push(QOp::DropRow);
+            }
+        } else {
+            ops.push(QOp::Finish);
+        }
         let cmds = vec![Cmd::prepare(b"p"), Cmd::execute(1, &[], false), Cmd::ping()];
         let scripts = vec![Script::PrepOk { id: 1, params: vec![], cols: cols.clone() }, Script::Q(QProg { colsets: vec![cols.clone()], ops, on_err: OnErr::Drop })];
         let obs = run_case(&varied_case(rng, cmds, scripts));
